@@ -61,6 +61,14 @@ def check_balance(prog, chk, rule, only=None):
             if depth != exp:
                 bad.setdefault((exit_desc(node), cls, depth, exp), (st, node))
         for kind, line, st in it.anomalies:
+            if kind.startswith("full-") and (kind, line) not in bad:
+                bad[(kind, line)] = None
+                rule.violation(fn.file, fn.name, line, "anomaly:%s" % kind,
+                               "a plain %s at L%s is executed on a path where sqlite3_get_autocommit() reported an enclosing "
+                               "transaction that this function did not open (it only set a savepoint): the caller's whole "
+                               "transaction is ended, not just this function's part of it"
+                               % ("ROLLBACK" if "rollback" in kind else "COMMIT", line),
+                               path=["L%s" % x for x in st.trail_lines()])
             if kind == "begin-inside-transaction" and (kind, line) not in bad:
                 bad[(kind, line)] = None
                 rule.violation(fn.file, fn.name, line, "anomaly:%s" % kind,
@@ -112,7 +120,7 @@ def run(prog, chk):
         unknown = 0
         for st, av, node in it.exits:
             cls = txm.ret_class(av)
-            mods, committed, lost, mo = st.ts
+            mods, committed, lost, mo = st.ts[:4]
             if cls == "err" and committed:
                 bad = True
                 r2.violation(fn.file, fn.name, node.get("l") if node else fn.endline,
